@@ -45,9 +45,11 @@ def mentionsL : RTys → List Nat
   | .cons t ts => mentions t ++ mentionsL ts
 end
 
-/-- the parameters met below the root: where the traversal goes after the root has been replaced -/
+/-- the parameters met after the root has been replaced: a substitute that is itself the name of a parameter is replaced
+again (`TypeParams::substitute` loops; defect D18: as found it stayed as it was - `mapKidsFound`), otherwise the traversal
+goes on below the root -/
 def kidParams : RTy → List Nat
-  | .param _ => []
+  | .param j => [j]
   | .con _ ks => mentionsL ks
 
 mutual
@@ -63,11 +65,28 @@ def mapPL (f : Nat → Option RTy) : RTys → Option RTys
     | _, _ => none
 end
 
-/-- the traversal below a root that has just been substituted: a substitute that is itself a bare parameter path
-has nothing below it and stays as it is -/
+/-- what happens to a substitute: if it is the name of a parameter it is replaced in turn, otherwise the traversal goes on
+below its root -/
 def mapKids (f : Nat → Option RTy) : RTy → Option RTy
+  | .param j => f j
+  | .con n ks => (mapPL f ks).map (.con n)
+
+/-- the code as found (D18): a substitute that is itself a bare parameter path has nothing below it and stayed as it was -/
+def mapKidsFound (f : Nat → Option RTy) : RTy → Option RTy
   | .param j => some (.param j)
   | .con n ks => (mapPL f ks).map (.con n)
+
+def substAtFound (env : Env) : Nat → Nat → Option RTy
+  | 0, i =>
+    match find env i with
+    | none => some (.param i)
+    | some _ => none
+  | fuel + 1, i =>
+    match find env i with
+    | none => some (.param i)
+    | some c => mapKidsFound (substAtFound env fuel) c
+
+def getTypeFound (env : Env) (t : RTy) : Option RTy := mapP (substAtFound env env.length) t
 
 /-- the visitor at a parameter path: replace it by its concrete type and go on inside; each nesting costs one fuel -/
 def substAt (env : Env) : Nat → Nat → Option RTy
@@ -84,6 +103,12 @@ def substAt (env : Env) : Nat → Nat → Option RTy
 def getTypeF (env : Env) (fuel : Nat) (t : RTy) : Option RTy := mapP (substAt env fuel) t
 
 def getType (env : Env) (t : RTy) : Option RTy := getTypeF env env.length t
+
+/-- the generic arguments of the impl header (`TypeParams::generics`): the concrete type of every parameter, rewritten like a
+field type (as found - D18 - they were emitted as written: `headerArgsFound`) -/
+def headerArgs (env : Env) : List (Option RTy) := env.map fun o => o.bind (getType env)
+
+def headerArgsFound (env : Env) : List (Option RTy) := env
 
 /-! ## `reject_recursive_types` -/
 
